@@ -119,6 +119,11 @@ def _leaves():
     add("KDSimpleRandomCrop", lambda: kdt.KDSimpleRandomCrop(size=16), "T", True)
     add("KDRandomErasing(zeros)", lambda: kdt.KDRandomErasing(p=0.8), "T", True)
     add("KDRandomErasing(pixelwise)", lambda: kdt.KDRandomErasing(p=0.8, mode="pixelwise", max_count=3), "T", True)
+    add("KDRandomErasing(channelwise)", lambda: kdt.KDRandomErasing(p=0.9, mode="channelwise", max_count=2), "T", True)
+    add("KDRandomResizedCrop(bicubic,ratio)", lambda: kdt.KDRandomResizedCrop(size=(8, 12), scale=(0.3, 1.0), ratio=(0.5, 2.0), interpolation="bicubic"), "P")
+    add("KDSpecAugment(time only)", lambda: kdt.KDSpecAugment(time_masking=5), "S", True)
+    add("KDAdditiveGaussianNoise(clipped)", lambda: kdt.KDAdditiveGaussianNoise(std=0.5, clip_min=0.0, clip_max=1.0), "T", True, True)
+    add("KDTwoRandomCrop(tight overlap)", lambda: KDTwoRandomCrop(size=8, overlap_min=0.4, overlap_max=0.6, tries=3), "T")
     add("KDRandomRotation", lambda: KDRandomRotation(degrees=30), "T", True)
     add("KDRandAugment", lambda: kdt.KDRandAugment(num_ops=2, magnitude=9, magnitude_std=0.5, interpolation="random",
                                                    fill_color=(124, 116, 104)), "P", True)
